@@ -19,6 +19,8 @@ def fr(r) -> Fraction | None:
 
 
 def fl(r) -> float | None:
+    if "float" in r:            # an entry already turned into a float by the harness (scaled twin)
+        return r["float"]
     x = fr(r)
     return None if x is None else float(x)
 
@@ -75,6 +77,10 @@ def norm_point(p: dict) -> dict:
     d["ss"] = fn_to_dict(d["ss"])
     d["init"] = fn_to_dict(d.get("init", {}))
     q["desc"] = d
+    q["consts"] = sorted(p.get("consts", []))
+    q["pools"] = sorted(p.get("pools", []))
+    for key in ("kdeg", "xdeg"):
+        q[key] = {k: int(v) for k, v in fn_to_dict(p.get(key, {})).items()}
     for key in ("env", "flux", "ss", "ssflux"):
         q[key] = fn_to_dict(p[key])
     d["vals"] = {}
@@ -84,12 +90,29 @@ def norm_point(p: dict) -> dict:
     return q
 
 
-def build(pt: dict, inits: dict | None = None):
-    """The real model of a point: parameters at the point's values, initial values = the point's state (or ``inits``)."""
+SK = 2.0 ** -30       # factor on every rate constant of a scaled twin (exact in binary floating point)
+SX = 2.0 ** -7        # factor on every pool (variables, pool-size parameter)
+
+
+def scale_of(pt: dict, sym: str, scaled: bool) -> float:
+    if not scaled:
+        return 1.0
+    return SK if sym in pt["consts"] else SX if sym in pt["pools"] else 1.0
+
+
+def rate_factor(pt: dict, rxn: str, scaled: bool) -> float:
+    """Mca.tla, Homogeneous: what scaling every constant by SK and every pool by SX does to the flux of rxn."""
+    return (SK ** pt["kdeg"][rxn]) * (SX ** pt["xdeg"][rxn]) if scaled else 1.0
+
+
+def build(pt: dict, inits: dict | None = None, scaled: bool = False):
+    """The real model of a point: parameters at the point's values, initial values = the point's state (or ``inits``).
+
+    scaled: the point's scaled twin (every rate constant * SK, every pool * SX)."""
     from mxlpy import Model
 
     d = pt["desc"]
-    env = {k: fl(v) for k, v in pt["env"].items()}
+    env = {k: fl(v) * scale_of(pt, k, scaled) for k, v in pt["env"].items()}
     m = Model()
     for q in d["pars"]:
         m.add_parameter(q, env[q])
